@@ -35,6 +35,7 @@ Guard(ev) ==
     [] ev.e = "PopInv" -> ev.t \notin asleep
     [] ev.e = "PopRet" -> (ev.v # 0 => (ev.v \in sent /\ ev.v \notin got))               \* NoInvention / no duplicate
     [] ev.e = "Sleep" -> TRUE
+    [] ev.e = "Step" -> TRUE        \* a scheduling step of the harness (used by UqueueDet_Trace only)
     [] ev.e = "Wake" -> ev.t \in asleep
     [] ev.e = "Quiescent" -> /\ \A t \in Threads : left[t] = 0                           \* NoLostWakeup
                              /\ pushedOk = poppedOk /\ popsInProg = 0
